@@ -192,6 +192,37 @@ pub fn for_each_value(cfg: &Cfg, tag: &str, f: &ValueCheck<'_>) -> Stats {
     });
     total = total.merge(s);
     total.subspace("end states of G7 mutation histories (proptest)", n3, false);
+    // end states of bulk histories: large values that no parsed input of this run produced
+    // (collections of several dozen entries, printed forms beyond 255 / 1024 bytes)
+    let n4 = cfg.pick(4_000, 80_000);
+    let s = run_strategy(&crate::props::c10::s_bulk_history(), cfg.seed, &format!("{tag}-bulk"), n4, |(start, ops_), st| match run_history(start, ops_) {
+        Some(loc) => {
+            if loc.to_string().len() > 255 {
+                st.class("value: printed form longer than 255 bytes");
+            }
+            f(&loc, &ops::history_case(start, ops_), st, Count::Hash)
+        }
+        None => st.class("history-start-not-accepted(skipped)"),
+    });
+    total = total.merge(s);
+    total.subspace("end states of G7 bulk histories (40-160 operations on one collection; proptest)", n4, false);
+    // from_parts with long variant lists (20-60 variants, printed form of several hundred bytes)
+    let n5 = cfg.pick(4_000, 80_000);
+    let long_parts = (s_parts(), vec(s_variant_pool(), 20..=60)).prop_map(|(mut p, vs)| {
+        p.variants = vs;
+        p
+    });
+    let s = run_strategy(&long_parts, cfg.seed, &format!("{tag}-longparts"), n5, |p, st| match build_parts(p) {
+        Some(loc) => {
+            if loc.to_string().len() > 255 {
+                st.class("value: printed form longer than 255 bytes");
+            }
+            f(&loc, &parts_case(p), st, Count::Hash)
+        }
+        None => st.class("parts-not-accepted(skipped)"),
+    });
+    total = total.merge(s);
+    total.subspace("from_parts with 20-60 variants (proptest)", n5, false);
     // exhaustive short histories
     let alpha = ops::op_alphabet();
     let na = alpha.len() as u64;
